@@ -2,6 +2,7 @@ use vbase::engine::{Ctx, Sub};
 
 pub mod c02;
 pub mod c03;
+pub mod c05;
 pub mod c07;
 pub mod c08;
 pub mod c09;
@@ -21,6 +22,7 @@ pub fn all() -> Vec<Prop> {
         Prop { id: "C07", run: c07::run, subs: c07::subs, rule: c07::RULE, assumptions: c07::ASSUMPTIONS },
         Prop { id: "C08", run: c08::run, subs: c08::subs, rule: c08::RULE, assumptions: c08::ASSUMPTIONS },
         Prop { id: "C09", run: c09::run, subs: c09::subs, rule: c09::RULE, assumptions: c09::ASSUMPTIONS },
+        Prop { id: "C05", run: c05::run, subs: c05::subs, rule: c05::RULE, assumptions: c05::ASSUMPTIONS },
     ]
 }
 
